@@ -100,7 +100,8 @@ Definition step_string (s : str) (x : st3) : st3 :=
   | None => x
   end.
 
-(* the "possible lifetime catch block": last blank/comma before the next apostrophe *)
+(* the "possible lifetime catch block": last blank/comma before the next apostrophe; the split is in front of that
+   blank, always behind the apostrophe (pos+1+i) *)
 Fixpoint life_scan (rest : str) (i : nat) (acc : option nat) : option nat :=
   match rest with
   | [] => acc
@@ -110,14 +111,33 @@ Fixpoint life_scan (rest : str) (i : nat) (acc : option nat) : option nat :=
     else life_scan r (S i) acc
   end.
 
+(* what follows the apostrophe: an escaped char literal ('\n', '\''), a plain char literal ('x', ' '), or a lifetime *)
+Inductive apos_kind := AEscaped | AChar | ALifetime.
+Definition apos_kind_of (rest : str) : apos_kind :=
+  match rest with
+  | c1 :: r =>
+    if Ascii.eqb c1 c_bsl then AEscaped
+    else match r with
+         | c2 :: _ => if Ascii.eqb c2 q_apos then AChar else ALifetime
+         | [] => ALifetime
+         end
+  | [] => ALifetime
+  end.
+
 Definition step_life (s : str) (x : st3) : st3 :=
   let '(n, w, op) := x in
   match op with
   | Some cap =>
     if str_eqb cap [q_apos] then
-      match life_scan (skipn (n + 1) s) 0 None with
-      | Some i => (n + i, skipn (n + i) s, Some [])
-      | None => x
+      let rest := skipn (n + 1) s in
+      match apos_kind_of rest with
+      | AEscaped => if Nat.leb (n + 3) (List.length s) then (n, blanks 3 ++ skipn (n + 3) s, op) else x   (* s.get(pos+3..) *)
+      | AChar => x
+      | ALifetime =>
+        match life_scan rest 0 None with
+        | Some i => (n + 1 + i, skipn (n + 1 + i) s, Some [])
+        | None => x
+        end
       end
     else x
   | None => x
